@@ -38,6 +38,8 @@ class Job:
         self.loopc = loopc or {}
         self.nobody = tuple(nobody)
         self.enforce = [enforce] if isinstance(enforce, str) else list(enforce or [])
+        if len(self.enforce) > 1:
+            raise ValueError('dfcc checks a single contract per instrumented binary: one --enforce-contract per job (%s)' % name)
         self.enforce_rec = enforce_rec
         self.replace = list(replace)
         self.loop_contracts = loop_contracts
@@ -61,6 +63,58 @@ class Job:
         self.bounded = bounded       # None, or a string describing the bound (=> labelled bounded, never counted as proved)
         self.known = known
         self.pre_text = pre_text
+
+
+class NativeJob(Job):
+    """A labelled stand-in executed natively against the real engine objects (never counted as proved).
+    `source` is a complete C++ program; it prints CONFIRMED <failing input> lines and exits 1 on disagreement."""
+
+    def __init__(self, name, source, label, spec=(), tier='quick', timeout=900, note=''):
+        Job.__init__(self, name, [], [], '', '', spec=spec, tier=tier, timeout=timeout, note=note, canary=False,
+                     bounded=label, route='native execution of the real code (stand-in)')
+        self.source = source
+
+
+def run_native(job, workroot):
+    r = JobResult(job)
+    t0 = time.time()
+    work = os.path.join(workroot, job.name.replace('/', '_'))
+    os.makedirs(work, exist_ok=True)
+    try:
+        objs, inc = engine_objects(workroot)
+        cpp = os.path.join(work, 'standin.cpp')
+        open(cpp, 'w').write(job.source)
+        exe = os.path.join(work, 'standin')
+        cmd = ['g++', '-std=c++20', '-w', '-O2', '-DNDEBUG', '-DLOG_LEVEL=0', '-D' + cxx2c.GUARD, *inc, '-I', os.path.join(VERIF, 'spec'),
+               cpp, *objs, '-o', exe, '-lpthread']
+        r.cmds.append(' '.join(cmd[:12]) + ' ... <engine objects built from the working tree>')
+        p = subprocess.run(cmd, capture_output=True, text=True)
+        if p.returncode != 0:
+            r.status, r.detail = 'ERROR', 'stand-in build failed: ' + p.stderr[-1500:]
+        else:
+            q = subprocess.run([exe], capture_output=True, text=True, timeout=job.timeout)
+            out = q.stdout[-4000:]
+            ok = q.returncode == 0 and 'CONFIRMED' not in q.stdout
+            d = {'property': 'native.standin', 'status': 'SUCCESS' if ok else 'FAILURE', 'description': job.bounded + ': ' + job.note,
+                 'function': '', 'line': ''}
+            r.props.append(d)
+            r.info['standin_output'] = out[-1500:]
+            if ok:
+                r.status = 'SUCCESS'
+            elif q.returncode == 1 and 'CONFIRMED' in q.stdout:
+                r.status = 'FAILURE'
+                d['inputs'] = {}
+                d['trace_tail'] = [l for l in q.stdout.split('\n') if 'CONFIRMED' in l][:20]
+                d['native_confirmed'] = '\n'.join(d['trace_tail'])
+                r.failed.append(d)
+            else:
+                r.status, r.detail = 'ERROR', 'stand-in crashed or gave no verdict (rc=%d): %s' % (q.returncode, (q.stdout + q.stderr)[-800:])
+    except subprocess.TimeoutExpired:
+        r.status, r.detail = 'TIMEOUT', 'stand-in exceeded %d s' % job.timeout
+    except Exception:
+        r.status, r.detail = 'ERROR', 'runner exception: ' + traceback.format_exc()[-1500:]
+    r.seconds = time.time() - t0
+    return r
 
 
 class JobResult:
@@ -217,6 +271,8 @@ def pipeline(job, work, canary=False):
 
 
 def run_job(job, workroot):
+    if isinstance(job, NativeJob):
+        return run_native(job, workroot)
     r = JobResult(job)
     work = os.path.join(workroot, job.name.replace('/', '_'))
     os.makedirs(work, exist_ok=True)
@@ -291,9 +347,16 @@ def load_known():
 
 # ---------------------------------------------------------------------------------------------- native replay
 _ENGINE_OBJS = {}
+import threading
+_ENGINE_LOCK = threading.Lock()
 
 
 def engine_objects(work):
+    with _ENGINE_LOCK:
+        return _engine_objects(work)
+
+
+def _engine_objects(work):
     """Compile the real engine sources of /repo's working tree (hooks on) once per run, for replays."""
     if 'objs' in _ENGINE_OBJS:
         return _ENGINE_OBJS['objs'], _ENGINE_OBJS['inc']
@@ -361,6 +424,7 @@ REPLAY_HEAD = '''// generated by vcheck: replay of a CBMC counterexample against
 #include "score.h"
 #include "polyglot.h"
 #include "time_manager.h"
+%(decl)s
 %(spec)s
 #define SETF(lv, v) (lv) = (std::remove_reference_t<decltype(lv)>)(v)
 namespace engine { struct VerifAccess {
@@ -406,7 +470,7 @@ def replay_source(job, inputs):
         glob.append('unsigned long long %s[%d] = {%s};\n' % (name, n, ', '.join(d.get(i, '0') for i in range(n))))
     rp = job.replay
     return REPLAY_HEAD % {'spec': spec, 'assign': ''.join(assign), 'globals': ''.join(glob), 'body': rp.get('body', ''),
-                          'access': rp.get('access', '')}
+                          'access': rp.get('access', ''), 'decl': getattr(job, 'replay_decl', '')}
 
 
 def native_replay(job, failed, work):
@@ -481,7 +545,10 @@ def run_check(pid, module, tier, seed):
         for r, fp, oname in violations:
             # one replay file per failing obligation; native replay once per job (first failing obligation with inputs)
             if r.job.name not in seen_jobs:
-                confirmed, rtxt = native_replay(r.job, fp, workroot)
+                if 'native_confirmed' in fp:
+                    confirmed, rtxt = True, fp['native_confirmed']
+                else:
+                    confirmed, rtxt = native_replay(r.job, fp, workroot)
                 seen_jobs[r.job.name] = (confirmed, rtxt)
             confirmed, rtxt = seen_jobs[r.job.name]
             path = os.path.join(replay_dir, re.sub(r'[^A-Za-z0-9_.-]+', '_', oname) + '.json')
